@@ -38,8 +38,10 @@ pub fn case(seed: u64, st: &mut Stats) {
             Err(_) => return,
         }
     };
+    // (multicall: the first word selects the applet; every line of a history is parsed by every
+    // variant alike, so the "same program name" premise holds line by line)
     if spec.has(Setting::Multicall) {
-        return; // the program name selects the applet: "same program name" premise differs per line
+        st.count("spec.multicall");
     }
     // idempotent build
     {
@@ -167,7 +169,16 @@ pub fn case(seed: u64, st: &mut Stats) {
                                     f.iter().all(|p| r.iter().any(|q| related(p, q)) || y.iter().any(|q| related(p, q)))
                                         && r.iter().all(|q| f.iter().any(|p| related(p, q)) || x.iter().any(|p| related(p, q)))
                                 };
-                                let sig = if only_help_shape {
+                                // third shape of the same family: multicall + flatten_help — the empty
+                                // program name leaves one more blank in front of the flattened usage
+                                // lines of a fresh value (the messages are equal modulo runs of blanks)
+                                let only_indent = spec.has(Setting::Multicall) && flatten && {
+                                    let t = |s: &str| norm(s).lines().map(|l| l.split_whitespace().collect::<Vec<_>>().join(" ")).collect::<Vec<_>>();
+                                    t(m1) == t(m2)
+                                };
+                                let sig = if only_indent {
+                                    format!("c11:{}:message-differs:multicall-flatten_help-usage-indent", name)
+                                } else if only_help_shape {
                                     format!("c11:{}:message-differs:help-subcommand-usage-shape", name)
                                 } else if only_prefix {
                                     format!("c11:{}:message-differs:no_binary_name-usage-prefix", name)
